@@ -45,12 +45,13 @@ def TInv (resume : Bool) (c : Ctl) (th : BThread) : Prop :=
   ((c.pc = .tpSpawn ∨ c.pc = .tpAck) → th.wRes = some true → th.pausedFlag = true) ∧
   (c.pc = .tpAck → th.wRes = some true) ∧
   (c.paused = true → th.pausedFlag = true) ∧
-  ((c.pc = .finalIn ∨ c.pc = .returned) → th.pc = .done) ∧
+  ((c.pc = .finalIn ∨ c.pc = .returned) → th.joined = true) ∧
   (th.inWait = true → th.inCb = none) ∧
   (th.raised = true → th.pc = .exc ∨ th.pc = .excHeld ∨ th.excFlag = true) ∧
   (th.pc = .new → th.inCb = none ∧ th.pausedFlag = false ∧ th.excFlag = false) ∧
   (th.excFlag = true → th.raised = true) ∧
-  ((th.pc = .exc ∨ th.pc = .excHeld) → th.raised = true)
+  ((th.pc = .exc ∨ th.pc = .excHeld) → th.raised = true) ∧
+  (th.joined = true → (th.pc = .done ∨ th.pc = .new) ∧ c.pc ≠ .boot)
 
 /-- Control-thread part of the invariant. -/
 def CInv (resume clockPaused : Bool) (c : Ctl) : Prop :=
@@ -337,7 +338,7 @@ theorem cstep_inv {s s' : St} {a : Act} (h : HInv s) (hs : cstep s a = some s') 
     · contradiction
   case cSetResume =>
     have thr_ok : ∀ (c' : Ctl), c'.holds = s.ctl.holds → c'.paused = s.ctl.paused →
-        (c'.pc ≠ .tpSpawn ∧ c'.pc ≠ .tpAck ∧ c'.pc ≠ .finalIn ∧ c'.pc ≠ .returned) →
+        (c'.pc ≠ .tpSpawn ∧ c'.pc ≠ .tpAck ∧ c'.pc ≠ .finalIn ∧ c'.pc ≠ .returned ∧ c'.pc ≠ .boot) →
         s.ctl.paused = false →
         ∀ th ∈ notifyAll s.thr, TInv true c' th := by
       intro c' hh hp hpc hnp th hth
@@ -517,17 +518,28 @@ theorem cstep_inv {s s' : St} {a : Act} (h : HInv s) (hs : cstep s a = some s') 
     split at hs
     · cases hs; ctl_same h
     · contradiction
+  case cIsAlive t v =>
+    split at hs
+    · rename_i th hget
+      split at hs
+      · cases hs
+        split
+        · exact h
+        · thr_set h hget
+      · contradiction
+    · contradiction
   case cJoin t =>
     split at hs
-    · split at hs
-      · cases hs; exact h
+    · rename_i th hget
+      split at hs
+      · cases hs; thr_set h hget
       · contradiction
     · contradiction
   case cFinalSaveBegin =>
     split at hs
     · rename_i hg
       cases hs
-      have hall : ∀ th ∈ s.thr, th.pc = .done := by
+      have hall : ∀ th ∈ s.thr, th.joined = true := by
         intro th hth
         have := List.all_eq_true.mp hg.2.2 th hth
         simpa using this
